@@ -10,7 +10,8 @@
    scopeb e        : the syntactic scope of the theorem (see /verif/design_notes/C06_diagram.md): non-empty argument
                      lists, 9-vector leaf dimensions, literal rational exponents, dimensionless functions with
                      dimensionless(-inferred) arguments, no SPlain / SDeriv, and `sum_ok` on every sum (the returned
-                     sum is not literally 0 unless every term is -- a limitation of the proof, not of the models)
+                     sum is not literally 0 unless every term is).  `scopeb_full` is `scopeb` WITHOUT `sum_ok`;
+                     the second half of the file proves the theorem for it (infer_then_collect_full)
    Fin q           : (from CollectQGlobal) every sub-expression of q has a finite value, leaf dimensions are
                      9-vectors, Min/Max have no literal Float(0.0) operand
    infer_then_collect :
@@ -19,7 +20,11 @@
                   (is_any v = true \/ deq d' d).
    Proof: induction on q with the invariant `diag` (additionally: the inference's "literally zero" test is sound
    for the instantiated value, and the returned expression is never zoo); Add/Min/Max through pairwise_equiv /
-   sd_go_ok_iff / unique_dim_ok_iff, Mul through dprod and Permutation (the models group factors differently). *)
+   sd_go_ok_iff / unique_dim_ok_iff, Mul through dprod and Permutation (the models group factors differently).
+   infer_then_collect_full (= infer_then_collect_full_statement, scope scopeb_full) strengthens the invariant to
+   `diagF`: when the inference returns a number rv, the collected value v satisfies val_eqb rv v = true.  The two
+   models' arithmetic (groups nums/qtys/syms vs. in order, Qred, vpow up to Qeq) is compared through the abstraction
+   qa : val -> option Q into a commutative monoid (fold_agree, mul_value, add_value, vpow_veq, vabs_veq). *)
 From Coq Require Import List QArith ZArith Bool NArith Lia Permutation Qround Qpower Qabs.
 From VP Require Import Base.Util Base.Dim Base.Val Model.CollectQ Model.CollectE
   Proofs.DimProofs Proofs.CollectQProofs Proofs.CollectEProofs Proofs.CollectQGlobal.
@@ -1087,8 +1092,8 @@ Qed.
 
 (* The scope clause `sum_ok` excludes sums whose returned expression cancels to a literal 0 although not every
    term is literally 0, e.g. (1 rad-free) + (-1): the conclusion still holds on such inputs (below), but proving
-   it needs the two models' arithmetic (different grouping, Qred) to agree on whole numeric sub-trees, which is
-   not done here.  The statement without that clause is recorded, unproved, as the target. *)
+   it needs the two models' arithmetic (different grouping, Qred) to agree on whole numeric sub-trees; that is
+   done in the last part of this file (infer_then_collect_full). *)
 Example cancelling_sum_out_of_scope :
   let e := SAdd [SAdd [SQty (VQ 1) dzero; SNum (VQ (-1))]; SDimSym d_length] in
   let q := QAdd [QAdd [QQty (VQ 1) dzero; QNum (VQ (-1))]; QQty (VQ 2) d_length] in
@@ -1111,7 +1116,7 @@ Fixpoint scopeb_full (e : sexpr) : bool :=
   | SDeriv _ _ _ => false
   end.
 
-(* NOT proved (believed true): infer_then_collect without the `sum_ok` clause *)
+(* infer_then_collect without the `sum_ok` clause; proved below as infer_then_collect_full *)
 Definition infer_then_collect_full_statement : Prop :=
   forall e q rv d,
     scopeb_full e = true -> Inst e q -> Fin q -> infer_e e = Ok (rv, d) ->
@@ -1122,3 +1127,740 @@ Print Assumptions infer_then_collect.
 Print Assumptions infer_then_collect_erased.
 Print Assumptions infer_then_quantity.
 Print Assumptions ex_applies.
+
+
+(* ================================================================================================ *)
+(* Closing the gap: the two models' arithmetic agrees on numeric sub-trees                           *)
+(* ================================================================================================ *)
+
+(* finite values abstracted to  Some q (an exact rational; Float(0.0) is 0)  |  None (VOther: an unknown
+   non-zero number) *)
+Definition qa (v : val) : option Q :=
+  match v with VQ x => Some x | VFloat0 => Some 0 | _ => None end.
+
+Definition oeq (a b : option Q) : Prop :=
+  match a, b with Some x, Some y => x == y | None, None => True | _, _ => False end.
+
+Lemma oeq_refl a : oeq a a.
+Proof. destruct a; cbn; [reflexivity | exact I]. Qed.
+Lemma oeq_sym a b : oeq a b -> oeq b a.
+Proof. destruct a, b; cbn; auto. intros H; symmetry; exact H. Qed.
+Lemma oeq_trans a b c : oeq a b -> oeq b c -> oeq a c.
+Proof. destruct a, b, c; cbn; try tauto. intros H1 H2. rewrite H1. exact H2. Qed.
+
+Lemma veq_qa a b : finite_val a = true -> finite_val b = true -> (val_eqb a b = true <-> oeq (qa a) (qa b)).
+Proof.
+  destruct a as [x| | | | | | |], b as [y| | | | | | |]; intros Fa Fb; try discriminate Fa; try discriminate Fb;
+    cbn [val_eqb qa oeq]; unfold qzero; rewrite ?Qeq_bool_iff; try tauto; try (split; [intros _; reflexivity | reflexivity]);
+    try (split; intros H; [discriminate H | contradiction]).
+  split; intros H; symmetry; exact H.
+Qed.
+
+(* a generic commutative monoid up to oeq: folds do not depend on the order *)
+Section OFold.
+  Variable op : option Q -> option Q -> option Q.
+  Variable e : option Q.
+  Hypothesis op_cong : forall a a' b b', oeq a a' -> oeq b b' -> oeq (op a b) (op a' b').
+  Hypothesis op_comm : forall a b, oeq (op a b) (op b a).
+  Hypothesis op_assoc : forall a b c, oeq (op (op a b) c) (op a (op b c)).
+  Hypothesis op_unit : forall a, oeq (op e a) a.
+
+  Definition ofold (l : list (option Q)) : option Q := fold_right op e l.
+
+  Lemma ofold_perm l l' : Permutation l l' -> oeq (ofold l) (ofold l').
+  Proof.
+    induction 1 as [|x l l' _ IH|x y l|l l' l'' _ IH1 _ IH2]; cbn [ofold fold_right].
+    - apply oeq_refl.
+    - apply op_cong; [apply oeq_refl | exact IH].
+    - fold (ofold l). eapply oeq_trans; [apply oeq_sym, op_assoc|].
+      eapply oeq_trans; [apply op_cong; [apply op_comm | apply oeq_refl]|]. apply op_assoc.
+    - eapply oeq_trans; eassumption.
+  Qed.
+
+  Lemma ofold_cong l l' : Forall2 oeq l l' -> oeq (ofold l) (ofold l').
+  Proof. induction 1 as [|x y l l' Hxy _ IH]; cbn [ofold fold_right]; [apply oeq_refl | apply op_cong; assumption]. Qed.
+
+  Lemma ofold_app l1 l2 : oeq (ofold (l1 ++ l2)) (op (ofold l1) (ofold l2)).
+  Proof.
+    induction l1 as [|x r IH]; cbn [app ofold fold_right].
+    - apply oeq_sym, op_unit.
+    - fold (ofold (r ++ l2)). fold (ofold r).
+      eapply oeq_trans; [apply op_cong; [apply oeq_refl | exact IH]|]. apply oeq_sym, op_assoc.
+  Qed.
+
+  (* a left fold of a homomorphic value-level operation *)
+  Variable f : val -> val -> val.
+  Hypothesis f_fin : forall a b, finite_val a = true -> finite_val b = true -> finite_val (f a b) = true.
+  Hypothesis f_hom : forall a b, finite_val a = true -> finite_val b = true -> oeq (qa (f a b)) (op (qa a) (qa b)).
+
+  Lemma fold_left_hom vs : forall a, finite_val a = true -> Forall (fun v => finite_val v = true) vs ->
+    oeq (qa (fold_left f vs a)) (op (qa a) (ofold (map qa vs))).
+  Proof.
+    induction vs as [|v r IH]; intros a Fa Fv; cbn [fold_left map ofold fold_right].
+    - apply oeq_sym. eapply oeq_trans; [apply op_comm | apply op_unit].
+    - inversion Fv as [|? ? Fv0 Fr]; subst. fold (ofold (map qa r)).
+      eapply oeq_trans; [apply IH; [apply f_fin; assumption | exact Fr]|].
+      eapply oeq_trans; [apply op_cong; [apply f_hom; assumption | apply oeq_refl]|]. apply op_assoc.
+  Qed.
+
+  (* the in-order fold of the collected values agrees with the fold, from the unit, of any permutation of
+     values that are elementwise equal to them *)
+  Variable e0 : val.
+  Hypothesis e0_fin : finite_val e0 = true.
+  Hypothesis e0_unit : qa e0 = e.
+
+  Lemma fold_agree p r ve G :
+    Forall (fun v => finite_val v = true) (p :: r) -> Forall (fun v => finite_val v = true) G ->
+    Forall2 (fun a b => oeq (qa a) (qa b)) ve (p :: r) -> Permutation ve G ->
+    oeq (qa (fold_left f G e0)) (qa (fold_left f r p)).
+  Proof.
+    intros Ft FG Hve HP. pose proof (Forall_inv Ft) as Fp. pose proof (Forall_inv_tail Ft) as Fr. cbn beta in Fp.
+    eapply oeq_trans; [apply fold_left_hom; [exact e0_fin | exact FG]|]. rewrite e0_unit.
+    eapply oeq_trans; [apply op_unit|].
+    eapply oeq_trans; [apply ofold_perm, Permutation_map, Permutation_sym; exact HP|].
+    eapply oeq_trans; [apply ofold_cong with (l' := map qa (p :: r))|].
+    - clear - Hve. induction Hve; cbn [map]; constructor; assumption.
+    - apply oeq_sym. apply fold_left_hom; assumption.
+  Qed.
+End OFold.
+
+(* ---- sums ------------------------------------------------------------------------------------------ *)
+Definition oplus (a b : option Q) : option Q :=
+  match a, b with Some x, Some y => Some (x + y) | _, _ => None end.
+
+Lemma oplus_cong a a' b b' : oeq a a' -> oeq b b' -> oeq (oplus a b) (oplus a' b').
+Proof. destruct a, a', b, b'; cbn; try tauto. intros H1 H2. rewrite H1, H2. reflexivity. Qed.
+Lemma oplus_comm a b : oeq (oplus a b) (oplus b a).
+Proof. destruct a, b; cbn; auto. ring. Qed.
+Lemma oplus_assoc a b c : oeq (oplus (oplus a b) c) (oplus a (oplus b c)).
+Proof. destruct a, b, c; cbn; auto. ring. Qed.
+Lemma oplus_unit a : oeq (oplus (Some 0) a) a.
+Proof. destruct a; cbn; auto. ring. Qed.
+
+Lemma vadd_hom a b : finite_val a = true -> finite_val b = true -> oeq (qa (vadd a b)) (oplus (qa a) (qa b)).
+Proof.
+  destruct a as [x| | | | | | |], b as [y| | | | | | |]; intros Fa Fb; try discriminate Fa; try discriminate Fb;
+    cbn [vadd qa oplus oeq]; auto; try rewrite Qred_correct; try ring.
+Qed.
+
+(* ---- products: None is an unknown NON-ZERO number, so 0 * None = 0 ----------------------------------- *)
+Definition omul (a b : option Q) : option Q :=
+  match a, b with
+  | Some x, Some y => Some (x * y)
+  | Some x, None | None, Some x => if Qeq_bool x 0 then Some 0 else None
+  | None, None => None
+  end.
+
+Lemma Qeq_bool_comp x y : x == y -> Qeq_bool x 0 = Qeq_bool y 0.
+Proof.
+  intros H. destruct (Qeq_bool x 0) eqn:E, (Qeq_bool y 0) eqn:F; try reflexivity.
+  - apply Qeq_bool_iff in E. rewrite H in E. apply Qeq_bool_iff in E. congruence.
+  - apply Qeq_bool_iff in F. rewrite <- H in F. apply Qeq_bool_iff in F. congruence.
+Qed.
+
+Lemma omul_cong a a' b b' : oeq a a' -> oeq b b' -> oeq (omul a b) (omul a' b').
+Proof.
+  destruct a as [x|], a' as [x'|], b as [y|], b' as [y'|]; cbn [oeq omul]; try tauto; intros H1 H2.
+  - rewrite H1, H2. reflexivity.
+  - rewrite (Qeq_bool_comp x x' H1). apply oeq_refl.
+  - rewrite (Qeq_bool_comp y y' H2). apply oeq_refl.
+Qed.
+
+Lemma omul_comm a b : oeq (omul a b) (omul b a).
+Proof. destruct a, b; cbn [omul]; try apply oeq_refl. cbn. ring. Qed.
+
+Lemma omul_unit a : oeq (omul (Some 1) a) a.
+Proof. destruct a; cbn; auto. ring. Qed.
+
+Lemma Qeq_bool_mul x y : Qeq_bool (x * y) 0 = Qeq_bool x 0 || Qeq_bool y 0.
+Proof.
+  change (qzero (x * y) = qzero x || qzero y).
+  destruct (qzero x) eqn:Ex; [cbn; apply qzero_mul_l; exact Ex|].
+  destruct (qzero y) eqn:Ey; cbn.
+  - unfold qzero in *. apply Qeq_bool_iff. apply Qeq_bool_iff in Ey. rewrite Ey. ring.
+  - apply qzero_mul_false; assumption.
+Qed.
+
+Ltac ofin :=
+  cbn [orb omul oeq]; rewrite ?Qeq_bool_mul;
+  repeat (match goal with H : Qeq_bool ?x 0 = _ |- context [Qeq_bool ?x 0] => rewrite H end; cbn [orb omul oeq]);
+  try exact I; try reflexivity;
+  repeat match goal with H : Qeq_bool ?x 0 = true |- _ => apply Qeq_bool_iff in H; try rewrite H end;
+  try ring.
+
+Lemma omul_assoc a b c : oeq (omul (omul a b) c) (omul a (omul b c)).
+Proof.
+  destruct a as [x|], b as [y|], c as [z|]; cbn [omul].
+  - cbn. ring.
+  - destruct (Qeq_bool x 0) eqn:Ex, (Qeq_bool y 0) eqn:Ey; ofin.
+  - destruct (Qeq_bool x 0) eqn:Ex, (Qeq_bool z 0) eqn:Ez; ofin.
+  - destruct (Qeq_bool x 0) eqn:Ex; ofin.
+  - destruct (Qeq_bool y 0) eqn:Ey, (Qeq_bool z 0) eqn:Ez; ofin.
+  - destruct (Qeq_bool y 0) eqn:Ey; ofin.
+  - destruct (Qeq_bool z 0) eqn:Ez; ofin.
+  - exact I.
+Qed.
+
+Lemma vmul_hom a b : finite_val a = true -> finite_val b = true -> oeq (qa (vmul a b)) (omul (qa a) (qa b)).
+Proof.
+  destruct a as [x| | | | | | |], b as [y| | | | | | |]; intros Fa Fb; try discriminate Fa; try discriminate Fb;
+    cbn [vmul qa omul]; unfold qzero;
+    try (destruct (Qeq_bool x 0) eqn:Ex); try (destruct (Qeq_bool y 0) eqn:Ey); cbn [qa oeq];
+    auto; try rewrite Qred_correct; try reflexivity; try ring.
+Qed.
+
+Definition vmul_agree := fold_agree omul (Some 1) omul_cong omul_comm omul_assoc omul_unit vmul vmul_finite vmul_hom
+                           (VQ 1) eq_refl eq_refl.
+Definition vadd_agree := fold_agree oplus (Some 0) oplus_cong oplus_comm oplus_assoc oplus_unit vadd vadd_finite vadd_hom
+                           (VQ 0) eq_refl eq_refl.
+
+(* ---- val_eqb on (finite) values ------------------------------------------------------------------------ *)
+Lemma veq_refl v : val_eqb v v = true.
+Proof. destruct v; cbn; try reflexivity. apply Qeq_bool_iff. reflexivity. Qed.
+
+Lemma veq_finite_l a b : val_eqb a b = true -> finite_val b = true -> finite_val a = true.
+Proof. destruct a, b; cbn; intros H F; try discriminate; reflexivity. Qed.
+
+Lemma veq_any a b : val_eqb a b = true -> finite_val b = true -> is_any a = true -> is_any b = true.
+Proof.
+  destruct a as [x| | | | | | |], b as [y| | | | | | |]; cbn [val_eqb finite_val is_any]; intros H F Ha;
+    try discriminate; try reflexivity; try exact H.
+  unfold qzero in *. apply Qeq_bool_iff in H. apply Qeq_bool_iff in Ha. apply Qeq_bool_iff. rewrite <- H. exact Ha.
+Qed.
+
+Lemma fin_any_veq a b : fin_any a -> fin_any b -> val_eqb a b = true.
+Proof.
+  intros [Fa Ha] [Fb Hb]. apply veq_qa; [assumption | assumption|].
+  destruct a as [x| | | | | | |], b as [y| | | | | | |]; try discriminate Fa; try discriminate Fb;
+    try discriminate Ha; try discriminate Hb; cbn [qa oeq]; cbn [is_any] in *; unfold qzero in *;
+    rewrite ?Qeq_bool_iff in *; try rewrite Ha; try rewrite Hb; reflexivity.
+Qed.
+
+(* ---- the returned sum: a number only if every symbolic term is, and then it is the vadd-fold ------------- *)
+Lemma fold_sadd_sym l : fold_left sadd l VSym = VSym.
+Proof. induction l as [|v r IH]; [reflexivity | exact IH]. Qed.
+
+Lemma sadd_num a b : sadd a b <> VSym -> sadd a b = vadd a b /\ b <> VSym.
+Proof. destruct a, b; cbn [sadd]; intros H; try congruence. split; [reflexivity | discriminate]. Qed.
+
+Lemma fold_sadd_num l : forall b, fold_left sadd l b <> VSym ->
+  fold_left sadd l b = fold_left vadd l b /\ Forall (fun x => x <> VSym) l.
+Proof.
+  induction l as [|v r IH]; intros b H; cbn [fold_left] in *; [split; [reflexivity | constructor]|].
+  assert (Hs : sadd b v <> VSym) by (intros E; rewrite E, fold_sadd_sym in H; congruence).
+  destruct (sadd_num b v Hs) as [E Hv]. destruct (IH _ H) as [IH1 IH2]. rewrite <- E.
+  split; [exact IH1 | constructor; assumption].
+Qed.
+
+(* ---- the returned product ----------------------------------------------------------------------------- *)
+Definition lit0 (v : val) : Prop := exists x, v = VQ x /\ qzero x = true.
+
+Lemma smul_cases a b : smul a b <> VSym -> (lit0 a \/ lit0 b) \/ (smul a b = vmul a b /\ a <> VSym /\ b <> VSym).
+Proof.
+  destruct a as [x| | | | | | |], b as [y| | | | | | |]; cbn [smul]; intros H;
+    try congruence;
+    try (destruct (qzero x) eqn:E; [left; left; exists x; auto | congruence]);
+    try (destruct (qzero y) eqn:E; [left; right; exists y; auto | congruence]).
+  right. repeat split; discriminate.
+Qed.
+
+Lemma smul_lit0_l a b : lit0 a -> lit0 (smul a b).
+Proof.
+  intros [x [-> Hx]]. destruct b as [y| | | | | | |]; cbn [smul]; rewrite ?Hx; try (exists 0; split; reflexivity).
+  exists (Qred (x * y)). split; [reflexivity|]. rewrite Qred_zero. apply qzero_mul_l. exact Hx.
+Qed.
+
+Lemma smul_lit0_r a b : lit0 b -> lit0 (smul a b).
+Proof.
+  intros [y [-> Hy]]. destruct a as [x| | | | | | |]; cbn [smul]; rewrite ?Hy; try (exists 0; split; reflexivity).
+  exists (Qred (x * y)). split; [reflexivity|]. rewrite Qred_zero. unfold qzero in *.
+  apply Qeq_bool_iff. apply Qeq_bool_iff in Hy. rewrite Hy. ring.
+Qed.
+
+Lemma fold_smul_lit0 l : forall b, lit0 b \/ Exists lit0 l -> lit0 (fold_left smul l b).
+Proof.
+  induction l as [|v r IH]; intros b H; cbn [fold_left].
+  - destruct H as [H|H]; [exact H | inversion H].
+  - apply IH. destruct H as [H|H]; [left; apply smul_lit0_l; exact H|].
+    inversion H as [? ? H0|? ? H0]; subst; [left; apply smul_lit0_r; exact H0 | right; exact H0].
+Qed.
+
+Lemma fold_smul_sym l : Forall (fun v => ~ lit0 v) l -> fold_left smul l VSym = VSym.
+Proof.
+  induction 1 as [|v r Hv _ IH]; [reflexivity|]. cbn [fold_left].
+  assert (E : smul VSym v = VSym).
+  { destruct v as [y| | | | | | |]; cbn [smul]; try reflexivity.
+    destruct (qzero y) eqn:Ey; [exfalso; apply Hv; exists y; auto | reflexivity]. }
+  rewrite E. exact IH.
+Qed.
+
+Lemma smul_lit0_inv a b : lit0 (smul a b) -> lit0 a \/ lit0 b.
+Proof.
+  intros [z [E Hz]].
+  assert (Hn : smul a b <> VSym) by (rewrite E; discriminate).
+  destruct (smul_cases a b Hn) as [H|[E' _]]; [exact H|].
+  destruct a as [x| | | | | | |], b as [y| | | | | | |]; cbn [smul] in E; try discriminate E;
+    try (destruct (qzero x) eqn:Ex; [left; exists x; auto | discriminate E]);
+    try (destruct (qzero y) eqn:Ey; [right; exists y; auto | discriminate E]).
+  assert (Hz' : qzero (Qred (x * y)) = true) by congruence. clear Hz. rename Hz' into Hz. rewrite Qred_zero in Hz.
+  destruct (qzero x) eqn:Ex; [left; exists x; auto|].
+  destruct (qzero y) eqn:Ey; [right; exists y; auto|]. rewrite (qzero_mul_false x y Ex Ey) in Hz. discriminate Hz.
+Qed.
+
+Lemma fold_smul_num l : forall b, fold_left smul l b <> VSym ->
+  (lit0 b \/ Exists lit0 l) \/
+  (fold_left smul l b = fold_left vmul l b /\ Forall (fun x => x <> VSym) l /\ b <> VSym).
+Proof.
+  induction l as [|v r IH]; intros b H; cbn [fold_left] in *; [right; repeat split; [constructor | exact H]|].
+  destruct (IH _ H) as [[H1|H1]|[H1 [H2 H3]]].
+  - left. destruct (smul_lit0_inv b v H1) as [H0|H0]; [left; exact H0 | right; left; exact H0].
+  - left. right. right. exact H1.
+  - destruct (smul_cases b v H3) as [[H0|H0]|[E [Hb Hv]]].
+    + left. left. exact H0.
+    + left. right. left. exact H0.
+    + right. rewrite <- E. repeat split; [exact H1 | constructor; assumption | exact Hb].
+Qed.
+
+(* ---- children, now also with the value relation ---------------------------------------------------------- *)
+Definition crelF (c : cls) (t : val * dim) : Prop :=
+  crel c t /\ (fst (entry_of c) <> VSym -> val_eqb (fst (entry_of c)) (fst t) = true).
+
+Lemma crelF_crel cs ts : Forall2 crelF cs ts -> Forall2 crel cs ts.
+Proof. induction 1 as [|c t cs ts [R _] _ IH]; constructor; assumption. Qed.
+
+Lemma group_vals cs :
+  map fst (group_entries cs) = nums_of cs ++ map fst (qtys_of cs) ++ map fst (syms_of cs).
+Proof.
+  unfold group_entries, qtys_of, syms_of. rewrite !map_app. f_equal.
+  unfold nums_of. induction cs as [|c r IH]; [reflexivity|].
+  cbn [flat_map]. rewrite !map_app, IH. destruct c; reflexivity.
+Qed.
+
+Lemma crelF_vals cs ts : Forall2 crelF cs ts -> Forall (fun r => fst r <> VSym) (syms_of cs) ->
+  Forall2 (fun a b => oeq (qa a) (qa b)) (map fst (map entry_of cs)) (map fst ts) /\
+  Forall (fun v => finite_val v = true) (map fst (map entry_of cs)).
+Proof.
+  unfold syms_of. induction 1 as [|c t cs ts [R Hv] _ IH]; intros Hs; cbn [map flat_map] in *; [split; constructor|].
+  destruct R as [Ft [_ [_ [_ [_ Heq]]]]].
+  destruct c as [v|v d|[rv d]]; cbn [entry_of fst snd app] in *.
+  - destruct (IH Hs) as [IH1 IH2]. subst v. split; constructor; auto using oeq_refl.
+  - destruct (IH Hs) as [IH1 IH2]. subst v. split; constructor; auto using oeq_refl.
+  - inversion Hs as [|? ? Hr Hs']; subst. cbn [fst] in Hr. destruct (IH Hs') as [IH1 IH2].
+    pose proof (Hv Hr) as E. pose proof (veq_finite_l _ _ E Ft) as Frv.
+    split; constructor; auto. apply veq_qa; assumption.
+Qed.
+
+Lemma Forall_map_inv {A B} (f : A -> B) (P : B -> Prop) l : Forall P (map f l) -> Forall (fun x => P (f x)) l.
+Proof. induction l as [|x r IH]; cbn [map]; intros H; [constructor|]. inversion H; subst. constructor; auto. Qed.
+
+Lemma lit0_fin_any v : lit0 v -> fin_any v.
+Proof. intros [x [-> Hx]]. split; [reflexivity | exact Hx]. Qed.
+
+(* the shared end of the argument: values elementwise equal, group order a permutation *)
+Lemma group_fold_perm cs : Permutation (map fst (map entry_of cs))
+                             (nums_of cs ++ map fst (qtys_of cs) ++ map fst (syms_of cs)).
+Proof. rewrite <- group_vals. apply Permutation_map, group_perm. Qed.
+
+Lemma mul_value cs p ts0 : Forall2 crelF cs (p :: ts0) -> fst (mul_of cs) <> VSym ->
+  val_eqb (fst (mul_of cs)) (fold_left vmul (map fst ts0) (fst p)) = true.
+Proof.
+  intros RF Hn. pose proof (crelF_crel _ _ RF) as R.
+  pose proof (crel_finite _ _ R) as Fts. pose proof (Forall_inv Fts) as Fp. cbn beta in Fp.
+  pose proof (Forall_map_fst (fun v => finite_val v = true) _ (Forall_inv_tail Fts)) as Fts0.
+  pose proof (fold_vmul_finite _ _ Fp Fts0) as Fv.
+  destruct (crel_group_finite cs _ R) as [F1 F2].
+  assert (Fq : finite_val (fold_left vmul (map fst (qtys_of cs)) (fold_left vmul (nums_of cs) (VQ 1))) = true).
+  { apply fold_vmul_finite; [apply fold_vmul_finite; [reflexivity | exact F1] | exact F2]. }
+  (* if the collected product is not zero, neither is the returned expression (mul_diagram) *)
+  assert (Hcontra : is_any (fst (mul_of cs)) = true -> fin_any (fold_left vmul (map fst ts0) (fst p))).
+  { intros Ha. split; [exact Fv|]. destruct (is_any (fold_left vmul (map fst ts0) (fst p))) eqn:Ev; [reflexivity|].
+    destruct (mul_diagram cs p ts0 R Ev) as [Hrv _]. congruence. }
+  revert Hn Hcontra. unfold mul_of.
+  destruct (is_any (fold_left vmul (map fst (qtys_of cs)) (fold_left vmul (nums_of cs) (VQ 1)))) eqn:Eq;
+    cbn [fst]; intros Hn Hcontra.
+  - apply fin_any_veq; [split; assumption | apply Hcontra; exact Eq].
+  - destruct (fold_smul_num _ _ Hn) as [Hz|[E [Hs Hb]]].
+    + pose proof (lit0_fin_any _ (fold_smul_lit0 _ _ Hz)) as Hfa.
+      apply fin_any_veq; [exact Hfa | apply Hcontra; apply Hfa].
+    + rewrite E. destruct (dimensionless _); [|congruence].
+      assert (Hs' : Forall (fun r : val * dim => fst r <> VSym) (syms_of cs)) by (apply (Forall_map_inv fst (fun x => x <> VSym)); exact Hs).
+      destruct (crelF_vals cs _ RF Hs') as [Hve Fve].
+      pose proof (group_fold_perm cs) as HP.
+      pose proof (Forall_perm _ _ _ HP Fve) as FG.
+      pose proof (vmul_agree (fst p) (map fst ts0) _ _ (Forall_cons _ Fp Fts0) FG Hve HP) as Hag.
+      rewrite !fold_left_app in Hag. apply veq_qa; [|exact Fv | exact Hag].
+      rewrite <- !fold_left_app. apply fold_vmul_finite; [reflexivity | exact FG].
+Qed.
+
+Lemma add_value cs p ts0 d : Forall2 crelF cs (p :: ts0) -> add_val cs d <> VSym ->
+  val_eqb (add_val cs d) (fold_left vadd (map fst ts0) (fst p)) = true.
+Proof.
+  intros RF Hn. pose proof (crelF_crel _ _ RF) as R.
+  pose proof (crel_finite _ _ R) as Fts. pose proof (Forall_inv Fts) as Fp. cbn beta in Fp.
+  pose proof (Forall_map_fst (fun v => finite_val v = true) _ (Forall_inv_tail Fts)) as Fts0.
+  pose proof (fold_vadd_finite _ _ Fp Fts0) as Fv.
+  revert Hn. unfold add_val. destruct (dimensionless d); intros Hn; [|rewrite fold_sadd_sym in Hn; congruence].
+  destruct (fold_sadd_num _ _ Hn) as [E Hs]. rewrite E.
+  assert (Hs' : Forall (fun r : val * dim => fst r <> VSym) (syms_of cs))
+    by (apply (Forall_map_inv fst (fun x => x <> VSym)); exact Hs).
+  destruct (crelF_vals cs _ RF Hs') as [Hve Fve].
+  pose proof (group_fold_perm cs) as HP.
+  pose proof (Forall_perm _ _ _ HP Fve) as FG.
+  pose proof (vadd_agree (fst p) (map fst ts0) _ _ (Forall_cons _ Fp Fts0) FG Hve HP) as Hag.
+  rewrite !fold_left_app in Hag. apply veq_qa; [|exact Fv | exact Hag].
+  rewrite <- !fold_left_app. apply fold_vadd_finite; [reflexivity | exact FG].
+Qed.
+
+(* ---- absolute value ---------------------------------------------------------------------------------------- *)
+Lemma vabs_veq a f : finite_val f = true -> val_eqb a f = true -> val_eqb (vabs a) (vabs f) = true.
+Proof.
+  intros Ff H. pose proof (veq_finite_l _ _ H Ff) as Fa.
+  destruct a as [x| | | | | | |], f as [y| | | | | | |]; try discriminate Fa; try discriminate Ff; try discriminate H;
+    cbn [vabs val_eqb] in *; try reflexivity; unfold qzero in *; rewrite Qeq_bool_iff in *;
+    rewrite ?Qred_correct; try rewrite H; try reflexivity.
+Qed.
+
+(* ---- powers: vpow respects Qeq on the base (every output is Qred-canonical or a constant) ------------------- *)
+Lemma Qeq_bool_comp1 x y c : x == y -> Qeq_bool x c = Qeq_bool y c.
+Proof.
+  intros H. destruct (Qeq_bool x c) eqn:E, (Qeq_bool y c) eqn:F; try reflexivity.
+  - apply Qeq_bool_iff in E. rewrite H in E. apply Qeq_bool_iff in E. congruence.
+  - apply Qeq_bool_iff in F. rewrite <- H in F. apply Qeq_bool_iff in F. congruence.
+Qed.
+
+Lemma vpow_Qeq x y q : x == y -> vpow (VQ x) (VQ q) = vpow (VQ y) (VQ q).
+Proof.
+  intros H.
+  assert (E1 : Qeq_bool x 1 = Qeq_bool y 1) by (apply Qeq_bool_comp1; exact H).
+  assert (E0 : qzero x = qzero y) by (apply Qeq_bool_comp1; exact H).
+  assert (Es : qsqrt_exact x = qsqrt_exact y) by (unfold qsqrt_exact; rewrite (Qred_complete x y H); reflexivity).
+  assert (Ep : forall n, Qred (Qpower x n) = Qred (Qpower y n)) by (intros n; apply Qred_complete; rewrite H; reflexivity).
+  cbn [vpow]. rewrite E1, E0, Es, Ep. reflexivity.
+Qed.
+
+Lemma vpow_q0 a q : a <> VSym -> qzero q = true -> vpow a (VQ q) = VQ 1.
+Proof. intros Ha Hq. destruct a; cbn [vpow]; rewrite ?Hq; try reflexivity. congruence. Qed.
+
+Lemma vpow_zero_nonneg b q : finite_val b = true -> is_any b = true -> qzero q = false ->
+  (Qnum q <? 0)%Z = false -> finite_val (vpow b (VQ q)) = true.
+Proof.
+  intros Fb Hb Hq Hn. destruct b as [x| | | | | | |]; try discriminate Fb; try discriminate Hb; cbn [vpow]; rewrite Hq, ?Hn.
+  - destruct (Qeq_bool x 1); [reflexivity|]. rewrite !andb_false_r.
+    destruct (is_int q); [reflexivity|]. destruct (Qeq_bool (q * 2) _).
+    + destruct (qsqrt_exact x); [rewrite andb_false_r|]; reflexivity.
+    + destruct (qzero x); reflexivity.
+  - reflexivity.
+Qed.
+
+Lemma vpow_fin_any a b q : fin_any a -> fin_any b -> val_eqb (vpow a (VQ q)) (vpow b (VQ q)) = true.
+Proof.
+  intros [Fa Ha] [Fb Hb].
+  assert (Na : a <> VSym) by (intros ->; discriminate Fa). assert (Nb : b <> VSym) by (intros ->; discriminate Fb).
+  destruct (qzero q) eqn:Eq; [rewrite (vpow_q0 a q Na Eq), (vpow_q0 b q Nb Eq); reflexivity|].
+  destruct (Qnum q <? 0)%Z eqn:En.
+  - rewrite (vpow_zero_neg a q Fa Ha En), (vpow_zero_neg b q Fb Hb En). reflexivity.
+  - pose proof (vpow_zero_nonneg a q Fa Ha Eq En) as F1. pose proof (vpow_zero_nonneg b q Fb Hb Eq En) as F2.
+    apply fin_any_veq; split; auto; apply vpow_zero_base; auto.
+Qed.
+
+Lemma vpow_veq bv bf q : finite_val bf = true -> val_eqb bv bf = true ->
+  val_eqb (vpow bv (VQ q)) (vpow bf (VQ q)) = true.
+Proof.
+  intros Ff H. pose proof (veq_finite_l _ _ H Ff) as Fv.
+  destruct (is_any bf) eqn:Ea.
+  - apply vpow_fin_any; split; auto.
+    destruct bv as [x| | | | | | |], bf as [y| | | | | | |]; try discriminate Fv; try discriminate Ff; try discriminate H;
+      try discriminate Ea; try reflexivity; cbn [val_eqb is_any] in *; try exact H.
+    unfold qzero in *. rewrite Qeq_bool_iff in *. rewrite H. exact Ea.
+  - destruct bv as [x| | | | | | |], bf as [y| | | | | | |]; try discriminate Fv; try discriminate Ff; try discriminate H;
+      try discriminate Ea; try apply veq_refl.
+    + cbn [val_eqb] in H. apply Qeq_bool_iff in H. rewrite (vpow_Qeq x y q H). apply veq_refl.
+    + cbn [val_eqb is_any] in *. congruence.
+Qed.
+
+(* ================================================================================================ *)
+(* The invariant without the sum_ok clause                                                           *)
+(* ================================================================================================ *)
+Definition diagF (q : qexpr) : Prop :=
+  forall e rv d, Inst e q -> scopeb_full e = true -> Fin q -> infer_e e = Ok (rv, d) ->
+    wf_dim d /\
+    exists v d', collect q = Ok (v, d') /\ wf_dim d' /\
+                 (is_any v = true \/ deq d' d) /\ (rv <> VSym -> val_eqb rv v = true).
+
+Lemma diagF_symb a a' x : diagF a' -> Inst a a' -> scopeb_full a = true -> Fin a' ->
+  infer_e a = Ok x -> exists t, collect a' = Ok t /\ crelF (CSymb x) t.
+Proof.
+  intros Hd Hi Hs HF Hx. destruct x as [rv d].
+  destruct (Hd a rv d Hi Hs HF Hx) as [Wd [v [d' [Hc [Wd' [Hdd Hval]]]]]].
+  assert (Fv : finite_val v = true) by (rewrite (collect_value a' v d' Hc); apply Fin_finite; exact HF).
+  exists (v, d'). split; [exact Hc|]. unfold crelF, crel. cbn [fst snd entry_of].
+  repeat split; auto. intros Ha. apply (veq_any rv v); auto. apply Hval. intros ->. discriminate Ha.
+Qed.
+
+Lemma head_clsF_rel a a' x : diagF a' -> Inst a a' -> scopeb_full a = true -> Fin a' ->
+  head_cls infer_e a = Ok x -> exists t, collect a' = Ok t /\ crelF x t.
+Proof.
+  intros Hd Hi Hs HF Hx.
+  assert (Hgen : forall y, infer_e a = Ok y -> exists t, collect a' = Ok t /\ crelF (CSymb y) t).
+  { intros y Hy. eapply diagF_symb; eassumption. }
+  destruct Hi as [v Hn|v d|d x0 Hx0|l l' Hl|b e b' e' Hb He|l l' Hl|a0 a0' Ha|l l' Hl|l l' Hl|d ov l l' Hl];
+    cbn [head_cls] in Hx.
+  - rewrite Hn in Hx. inversion Hx; subst x. exists (v, dzero). cbn [collect]. rewrite Hn. split; [reflexivity|].
+    inversion HF; subst. unfold crelF, crel. cbn [fst snd entry_of].
+    repeat split; auto using dzero_wf, veq_refl. right. apply deq_refl.
+  - inversion Hx; subst x. exists (v, d). split; [reflexivity|]. inversion HF; subst.
+    unfold crelF, crel. cbn [fst snd entry_of]. repeat split; auto using veq_refl. right. apply deq_refl.
+  - destruct (infer_e (SDimSym d)) as [y|k] eqn:E; [|discriminate]. inversion Hx; subst x. apply Hgen. reflexivity.
+  - destruct (infer_e (SMul l)) as [y|k] eqn:E; [|discriminate]. inversion Hx; subst x. apply Hgen. reflexivity.
+  - destruct (infer_e (SPow b e)) as [y|k] eqn:E; [|discriminate]. inversion Hx; subst x. apply Hgen. reflexivity.
+  - destruct (infer_e (SAdd l)) as [y|k] eqn:E; [|discriminate]. inversion Hx; subst x. apply Hgen. reflexivity.
+  - destruct (infer_e (SAbs a0)) as [y|k] eqn:E; [|discriminate]. inversion Hx; subst x. apply Hgen. reflexivity.
+  - destruct (infer_e (SMin l)) as [y|k] eqn:E; [|discriminate]. inversion Hx; subst x. apply Hgen. reflexivity.
+  - destruct (infer_e (SMax l)) as [y|k] eqn:E; [|discriminate]. inversion Hx; subst x. apply Hgen. reflexivity.
+  - destruct (infer_e (SFun d l)) as [y|k] eqn:E; [|discriminate]. inversion Hx; subst x. apply Hgen. reflexivity.
+Qed.
+
+Lemma children_relF l' : Forall diagF l' ->
+  forall l cs, Forall2 Inst l l' -> forallb scopeb_full l = true -> Forall Fin l' ->
+    classify infer_e l = Ok cs -> exists ts, map_res collect l' = Ok ts /\ Forall2 crelF cs ts.
+Proof.
+  induction 1 as [|a' r' Ha Hr IH]; intros l cs Hi Hs HF Hc; inversion Hi as [|a ? r ? Hia Hir]; subst.
+  - cbn in Hc. inversion Hc; subst. exists []. split; [reflexivity | constructor].
+  - rewrite classify_cons in Hc. cbn [forallb] in Hs. apply andb_true_iff in Hs as [Hsa Hsr].
+    inversion HF as [|? ? Fa Fr]; subst.
+    destruct (head_cls infer_e a) as [x|k] eqn:Ex; [|discriminate].
+    destruct (classify infer_e r) as [xs|k] eqn:Er; [|discriminate]. inversion Hc; subst cs.
+    destruct (head_clsF_rel a a' x Ha Hia Hsa Fa Ex) as [t [Ht Hrel]].
+    destruct (IH r xs Hir Hsr Fr Er) as [ts [Hts Hrels]].
+    exists (t :: ts). split; [cbn [map_res]; rewrite Ht, Hts; reflexivity | constructor; assumption].
+Qed.
+
+Lemma fun_childrenF l' ov : Forall diagF l' -> forall l, Forall2 Inst l l' ->
+  forallb scopeb_full l = true -> forallb infers_dimensionless l = true -> Forall Fin l' ->
+  fun_go collect ov l' = Ok (ov, dzero).
+Proof.
+  induction 1 as [|a' r' Ha _ IH]; intros l Hi Hs Hdl HF; inversion Hi as [|a ? r ? Hia Hir]; subst; [reflexivity|].
+  cbn [forallb] in Hs, Hdl. apply andb_true_iff in Hs as [Hsa Hsr]. apply andb_true_iff in Hdl as [Hda Hdr].
+  inversion HF as [|? ? Fa Fr]; subst. unfold infers_dimensionless in Hda.
+  destruct (infer_e a) as [[rv ad]|k] eqn:E; [|discriminate Hda].
+  destruct (Ha a rv ad Hia Hsa Fa E) as [_ [v [d' [Hc [_ [Hd _]]]]]].
+  cbn [fun_go]. rewrite Hc.
+  assert (Hok : is_any v || dimensionless d' = true).
+  { destruct Hd as [Hd|Hd]; [rewrite Hd; reflexivity|]. rewrite (dimensionless_deq _ _ Hd), Hda. apply orb_true_r. }
+  rewrite Hok. apply (IH r); assumption.
+Qed.
+
+Lemma diagF_num v0 : diagF (QNum v0).
+Proof.
+  intros e rv d Hi Hs HF He. inversion Hi as [v Hn| | | | | | | | |]; subst. inversion HF; subst.
+  cbn [infer_e] in He. inversion He; subst. split; [exact dzero_wf|].
+  exists rv, dzero. cbn [collect]. rewrite Hn.
+  repeat split; auto using dzero_wf, veq_refl. right; apply deq_refl.
+Qed.
+
+Lemma diagF_qty v0 d0 : diagF (QQty v0 d0).
+Proof.
+  intros e rv d Hi Hs HF He.
+  assert (Fv : finite_val v0 = true /\ wf_dim d0) by (inversion HF; subst; split; assumption).
+  destruct Fv as [Fv Wd0].
+  assert (Hrd : rv = VSym /\ d = d0).
+  { inversion Hi; subst; cbn [infer_e] in He; inversion He; subst; split; reflexivity. }
+  destruct Hrd as [-> ->]. split; [exact Wd0|]. exists v0, d0. cbn [collect].
+  repeat split; auto; try (right; apply deq_refl).
+Qed.
+
+Lemma diagF_abs a' : diagF a' -> diagF (QAbs a').
+Proof.
+  intros IH e rv d Hi Hs HF He. inversion Hi as [| | | | | |a ? Ha| | |]; subst. inversion HF as [| | | | | |? Fa Ff| | |]; subst.
+  cbn [scopeb_full] in Hs. cbn [infer_e] in He. destruct (infer_e a) as [[av ad]|k] eqn:Ea; [|discriminate He].
+  injection He as Hrv Hd0. subst ad. destruct (IH a av d Ha Hs Fa Ea) as [Wd [f [d' [Hc [Wd' [Hd Hval]]]]]].
+  assert (Ff' : finite_val f = true) by (rewrite (collect_value a' f d' Hc); apply Fin_finite; exact Fa).
+  split; [exact Wd|]. exists (vabs f), d'. cbn [collect]. rewrite Hc. repeat split; auto.
+  - destruct Hd as [Hd|Hd]; [left; apply vabs_any; exact Hd | right; exact Hd].
+  - intros Hn. assert (Hav : av <> VSym) by (intros ->; congruence).
+    assert (E : rv = vabs av) by (rewrite <- Hrv; destruct av; congruence).
+    rewrite E. apply vabs_veq; auto.
+Qed.
+
+Lemma diagF_fun ov l' : Forall diagF l' -> diagF (QFun ov l').
+Proof.
+  intros IH e rv d Hi Hs HF He. inversion Hi as [| | | | | | | | |d0 ? l ? Hl]; subst.
+  inversion HF as [| | | | | | | | |? ? Fl Fo]; subst.
+  cbn [scopeb_full] in Hs. apply andb_true_iff in Hs as [Hs Hdl]. apply andb_true_iff in Hs as [Hs Hsl].
+  apply andb_true_iff in Hs as [Hw Hd0]. apply wf_dimb_wf in Hw.
+  apply infer_fun_inv in He as [He _]. inversion He; subst. split; [exact Hw|].
+  exists ov, dzero. cbn [collect]. rewrite (fun_childrenF l' ov IH l Hl Hsl Hdl Fl).
+  repeat split; auto using dzero_wf; try congruence.
+  right. apply deq_sym. apply dimensionless_wf_dzero; assumption.
+Qed.
+
+Lemma diagF_mul l' : Forall diagF l' -> diagF (QMul l').
+Proof.
+  intros IH e rv d Hi Hs HF He. inversion Hi as [| | |l ? Hl| | | | | |]; subst.
+  assert (Fl : Forall Fin l') by (inversion HF; assumption).
+  cbn [scopeb_full] in Hs. apply andb_true_iff in Hs as [Hne Hsl].
+  cbn [infer_e] in He. destruct (classify infer_e l) as [cs|k] eqn:Ec; [|discriminate He].
+  destruct (children_relF l' IH l cs Hl Hsl Fl Ec) as [ts [Hts RF]]. pose proof (crelF_crel _ _ RF) as R.
+  pose proof (mul_of_wf cs ts R) as Wd.
+  injection He as Hm. rewrite Hm in Wd. cbn [snd] in Wd. split; [exact Wd|].
+  destruct l' as [|x xs]; [exfalso; exact (Forall2_nonempty _ _ _ Hl Hne eq_refl)|].
+  cbn [map_res] in Hts. destruct (collect x) as [p|k] eqn:Ex; [|discriminate Hts].
+  destruct (map_res collect xs) as [ts0|k] eqn:Exs; [|discriminate Hts]. injection Hts as <-.
+  destruct (collect_mul_spec x xs p ts0 Ex Exs) as [v [d' [Hc [Hv Hd]]]].
+  pose proof (crel_finite _ _ R) as Fts. pose proof (Forall_inv Fts) as Fp. pose proof (Forall_inv_tail Fts) as Fts0.
+  cbn beta in Fp. specialize (Hd Fp Fts0).
+  destruct (collect_dim_claim (QMul (x :: xs)) HF) as [_ Hclaim]. destruct (Hclaim v d' Hc) as [Wd' _].
+  exists v, d'. split; [exact Hc|]. split; [exact Wd'|]. split.
+  - destruct (is_any v) eqn:Ev; [left; reflexivity|]. destruct Hd as [Hd|Hd]; [discriminate Hd|].
+    assert (Hv' : is_any (fold_left vmul (map fst ts0) (fst p)) = false) by (rewrite <- Hv; exact Ev).
+    destruct (mul_diagram cs p ts0 R Hv') as [_ Hdd]. rewrite Hm in Hdd. cbn [snd] in Hdd.
+    right. eapply deq_trans; [exact Hd | exact Hdd].
+  - intros Hn. rewrite Hv. pose proof (mul_value cs p ts0 RF) as Hmv. rewrite Hm in Hmv. cbn [fst] in Hmv.
+    apply Hmv. exact Hn.
+Qed.
+
+Lemma diagF_pow b' x' : diagF b' -> diagF (QPow b' x').
+Proof.
+  intros IH e rv d Hi Hs HF He. inversion Hi as [| | | |b x ? ? Hb Hx| | | | |]; subst.
+  inversion HF as [| | | |? ? Fb Fx Ff| | | | |]; subst.
+  cbn [scopeb_full] in Hs. apply andb_true_iff in Hs as [Hsb Hlit].
+  destruct x as [xv| | | | | | | | | | |]; try discriminate Hlit. destruct xv as [q| | | | | | |]; try discriminate Hlit.
+  inversion Hx; subst.
+  cbn [infer_e] in He. rewrite dimensionless_dzero in He. cbn [negb] in He. rewrite andb_false_r in He.
+  destruct (infer_e b) as [[bv bd]|k] eqn:Eb; [|discriminate He].
+  destruct (dim_pow_expr bd (VQ q)) as [dd|] eqn:Ed; [|discriminate He]. injection He as Hrv' Hdd. subst dd.
+  assert (Hcase : rv = VSym \/ (bv <> VSym /\ rv = vpow bv (VQ q))).
+  { rewrite <- Hrv'. destruct bv; auto; right; split; try reflexivity; discriminate. }
+  clear Hrv'.
+  destruct (IH b bv bd Hb Hsb Fb Eb) as [Wbd [bf [bd' [Hc [Wbd' [Hd Hval]]]]]].
+  change (dim_pow_val bd (VQ q) = Some d) in Ed.
+  destruct (dim_pow_val_spec bd (VQ q) d Wbd Ed) as [Wd Dd]. split; [exact Wd|].
+  destruct (dim_pow_val bd' (VQ q)) as [d'|] eqn:Ed'.
+  2:{ unfold dim_pow_val in Ed'. destruct (dimensionless bd'); discriminate Ed'. }
+  destruct (dim_pow_val_spec bd' (VQ q) d' Wbd' Ed') as [Wd' Dd'].
+  pose proof (collect_value b' bf bd' Hc) as Hbf.
+  assert (Fbf : finite_val bf = true) by (rewrite Hbf; apply Fin_finite; exact Fb).
+  cbn [value] in Ff. rewrite <- Hbf in Ff.
+  exists (vpow bf (VQ q)), d'. cbn [collect]. rewrite Hc. cbn [is_number].
+  rewrite dimensionless_dzero, orb_true_r, Ed'.
+  split; [reflexivity|]. split; [exact Wd'|]. split.
+  - destruct Hd as [Hd|Hd].
+    + destruct (qzero q) eqn:Eq.
+      * right. assert (Hq : q == 0) by (apply Qeq_bool_iff; exact Eq).
+        eapply deq_trans; [exact Dd'|]. eapply deq_trans; [apply dpow0_wf; assumption|].
+        apply deq_sym. eapply deq_trans; [exact Dd | apply dpow0_wf; assumption].
+      * left. apply vpow_zero_base; auto.
+    + right. eapply deq_trans; [exact Dd'|]. apply deq_sym. eapply deq_trans; [exact Dd|].
+      apply dpow_deq; [apply deq_sym; exact Hd | reflexivity].
+  - intros Hn. destruct Hcase as [Hc1|[Hbv Hc1]]; [congruence|]. rewrite Hc1.
+    apply vpow_veq; [exact Fbf | apply Hval; exact Hbv].
+Qed.
+
+Lemma diagF_add l' : Forall diagF l' -> diagF (QAdd l').
+Proof.
+  intros IH e rv d Hi Hs HF He. inversion Hi as [| | | | |l ? Hl| | | |]; subst.
+  assert (Fl : Forall Fin l') by (inversion HF; assumption).
+  cbn [scopeb_full] in Hs. apply andb_true_iff in Hs as [Hne Hsl].
+  cbn [infer_e] in He. destruct (classify infer_e l) as [cs|k] eqn:Ec; [|discriminate He].
+  destruct (unique_dim cs) as [d0|k] eqn:Eu; [|discriminate He]. injection He as Hrv Hd0. subst d0.
+  destruct (children_relF l' IH l cs Hl Hsl Fl Ec) as [ts [Hts RF]]. pose proof (crelF_crel _ _ RF) as R.
+  pose proof (crel_finite _ _ R) as Fts.
+  assert (Hne' : ts <> []) by (eapply crel_nonempty; [exact R | eapply classify_nonempty; eassumption]).
+  destruct (sd_node comb_add l' ts cs d fin_any Hts R Eu
+              (sd_val_add_total ts None (or_intror Hne')) comb_add_closed (fun x Hx => proj2 Hx)
+              (fin_any_all ts Fts)) as [Wd [v [d' [Hc [Wd' Hd]]]]].
+  split; [exact Wd|]. exists v, d'. cbn [collect]. split; [exact Hc|]. split; [exact Wd'|]. split; [exact Hd|].
+  intros Hn. apply (sd_go_ok_iff collect comb_add l' ts v d' Hts) in Hc as [_ [Hv _]].
+  destruct ts as [|p ts0]; [congruence|]. cbn [sd_val] in Hv.
+  assert (Hg : forall a b y, comb_add a b = Some y -> y = vadd a b) by (intros a b y E; inversion E; reflexivity).
+  rewrite (sd_val_fold comb_add vadd ts0 Hg (fst p) v).
+  - rewrite <- Hrv. apply add_value; [exact RF | rewrite Hrv; exact Hn].
+  - destruct p as [pf pd]. exact Hv.
+Qed.
+
+Lemma minmax_nodeF g l' l rv d :
+  (forall a b, comparable a = true -> comparable b = true -> comparable (g a b) = true) ->
+  (forall a b, zero_q a -> zero_q b -> zero_q (g a b)) ->
+  Forall diagF l' -> Forall2 Inst l l' -> nonempty l = true -> forallb scopeb_full l = true ->
+  Forall Fin l' -> Forall (fun t => value t <> VFloat0) l' ->
+  match classify infer_e l with
+  | Err k => Err k
+  | Ok cs => match unique_dim cs with Err k => Err k | Ok d => Ok (VSym, d) end
+  end = Ok (rv, d) ->
+  wf_dim d /\
+  exists v d', sd_go collect (cmp_comb g) None None dzero l' = Ok (v, d') /\ wf_dim d' /\
+               (is_any v = true \/ deq d' d) /\ (rv <> VSym -> val_eqb rv v = true).
+Proof.
+  intros Hg Hz IH Hl Hne Hsl Fl Hnf He.
+  destruct (classify infer_e l) as [cs|k] eqn:Ec; [|discriminate He].
+  destruct (unique_dim cs) as [d0|k] eqn:Eu; [|discriminate He]. inversion He; subst d0 rv.
+  destruct (children_relF l' IH l cs Hl Hsl Fl Ec) as [ts [Hts RF]]. pose proof (crelF_crel _ _ RF) as R.
+  pose proof (crel_finite _ _ R) as Fts.
+  assert (Hne' : ts <> []) by (eapply crel_nonempty; [exact R | eapply classify_nonempty; eassumption]).
+  assert (Hex : exists v, sd_val (cmp_comb g) None ts = Some v).
+  { apply (sd_val_cmp_none g Hg). split; [exact Hne'|]. intros _.
+    unfold all_comparable. eapply Forall_impl; [|exact Fts]. intros t Ht. apply finite_comparable. exact Ht. }
+  destruct (sd_node (cmp_comb g) l' ts cs d zero_q Hts R Eu Hex (cmp_comb_closed g zero_q Hz) zero_q_any
+              (zero_q_all ts Fts (map_res_no_float0 l' ts Hts Hnf))) as [Wd [v [d' [Hc [Wd' Hd]]]]].
+  split; [exact Wd|]. exists v, d'. repeat split; auto.
+Qed.
+
+Lemma diagF_min l' : Forall diagF l' -> diagF (QMin l').
+Proof.
+  intros IH e rv d Hi Hs HF He. inversion Hi as [| | | | | | |l ? Hl| |]; subst.
+  inversion HF as [| | | | | | |? Fl Hnf Ff| |]; subst.
+  cbn [scopeb_full] in Hs. apply andb_true_iff in Hs as [Hne Hsl]. cbn [infer_e] in He. cbn [collect].
+  rewrite comb_min_cmp. eapply minmax_nodeF; eauto using vmin_comparable, vmin_zero_q.
+Qed.
+
+Lemma diagF_max l' : Forall diagF l' -> diagF (QMax l').
+Proof.
+  intros IH e rv d Hi Hs HF He. inversion Hi as [| | | | | | | |l ? Hl|]; subst.
+  inversion HF as [| | | | | | | |? Fl Hnf Ff|]; subst.
+  cbn [scopeb_full] in Hs. apply andb_true_iff in Hs as [Hne Hsl]. cbn [infer_e] in He. cbn [collect].
+  rewrite comb_max_cmp. eapply minmax_nodeF; eauto using vmax_comparable, vmax_zero_q.
+Qed.
+
+Theorem diagF_all : forall q, diagF q.
+Proof.
+  induction q as [v0|v0 d0|v0|l IH|b x IHb IHx|l IH|a IHa|l IH|l IH|ov l IH|] using qexpr_ind2.
+  - apply diagF_num.
+  - apply diagF_qty.
+  - intros e rv d Hi. inversion Hi.
+  - apply diagF_mul; exact IH.
+  - apply diagF_pow; exact IHb.
+  - apply diagF_add; exact IH.
+  - apply diagF_abs; exact IHa.
+  - apply diagF_min; exact IH.
+  - apply diagF_max; exact IH.
+  - apply diagF_fun; exact IH.
+  - intros e rv d Hi. inversion Hi.
+Qed.
+
+(* the full statement: no restriction on sums; moreover, when the inference returns a number, it is the value
+   of the quantity (up to val_eqb) *)
+Theorem infer_then_collect_full_values : forall e q rv d,
+  scopeb_full e = true -> Inst e q -> Fin q -> infer_e e = Ok (rv, d) ->
+  exists v d', collect q = Ok (v, d') /\ v = value q /\ finite_val v = true /\ wf_dim d /\ wf_dim d' /\
+               (is_any v = true \/ deq d' d) /\ (rv <> VSym -> val_eqb rv v = true).
+Proof.
+  intros e q rv d Hs Hi HF He.
+  destruct (diagF_all q e rv d Hi Hs HF He) as [Wd [v [d' [Hc [Wd' [Hd Hval]]]]]].
+  pose proof (collect_value q v d' Hc) as Hv.
+  exists v, d'. repeat split; auto. rewrite Hv. apply Fin_finite. exact HF.
+Qed.
+
+Theorem infer_then_collect_full : infer_then_collect_full_statement.
+Proof.
+  intros e q rv d Hs Hi HF He.
+  destruct (infer_then_collect_full_values e q rv d Hs Hi HF He) as [v [d' [H1 [H2 [H3 [H4 [H5 [H6 _]]]]]]]].
+  exists v, d'. repeat split; assumption.
+Qed.
+
+(* the formerly excluded input is now covered *)
+Example cancelling_sum_now_covered :
+  scopeb_full (SAdd [SAdd [SQty (VQ 1) dzero; SNum (VQ (-1))]; SDimSym d_length]) = true.
+Proof. vm_compute. reflexivity. Qed.
+
+Print Assumptions infer_then_collect_full.
+Print Assumptions infer_then_collect_full_values.
